@@ -692,7 +692,8 @@ def list_slice_index_maps(repo: Repo, R, rule: str):
             aug = [n for n in ast.walk(lp) if isinstance(n, ast.AugAssign) and isinstance(n.op, ast.Add)]
             if aug and d == 1:
                 acc = ast.unparse(aug[0].target)
-                init = [s for s in au.stmts(fi.node) if isinstance(s, ast.Assign) and ast.unparse(s.targets[0]) == acc]
+                lc = [(ast.unparse(t), p_) for t, p_ in path_conditions(fi.node, lp)]
+                init = [s for s in au.stmts(fi.node) if isinstance(s, ast.Assign) and ast.unparse(s.targets[0]) == acc and [(ast.unparse(t), p_) for t, p_ in path_conditions(fi.node, s)] == lc and s.lineno < lp.lineno]
                 sub = pat.find(f"_list_slice($P[{sl}.bot - {acc}])", lp)
                 inc_ok = ast.unparse(aug[0].value) in ("width(part)", f"width({ast.unparse(lp.target)})")
                 test_ok = False
